@@ -355,6 +355,18 @@ func handleReq(rq wproto.Req) (rp wproto.Rep) {
 		// the WithMassive option value, the package state of gtree)
 		rp.Class = "par"
 		rp.Sub = make([]wproto.Rep, len(rq.Par))
+		// The calls share the process's current directory as well: it is the parent of their jails, and the second call
+		// names its targets relative to it (a call that changes the working directory disturbs the other one).
+		if parent, err := os.MkdirTemp("", "verif-par-"); err == nil {
+			defer os.RemoveAll(parent)
+			if old, err := os.Getwd(); err == nil && os.Chdir(parent) == nil {
+				defer os.Chdir(old)
+				for i := range rq.Par {
+					rq.Par[i].JailIn = filepath.Join(parent, fmt.Sprintf("j%d", i))
+					rq.Par[i].RelJail = i == 1
+				}
+			}
+		}
 		// Mkdir with dry run prints its report to the colour package's process-wide writer (stdout, here the protocol
 		// channel): one locked sink for the calls that run at the same time (those reports are not compared)
 		color.Output = &faultWriter{buf: &bytes.Buffer{}}
@@ -439,18 +451,27 @@ func handleOne(rq wproto.Req, alone bool) (rp wproto.Rep) {
 	var jail string
 	if rq.OptMode {
 		var err error
-		jail, err = os.MkdirTemp("", "verif-jail-")
+		if rq.JailIn != "" {
+			jail = rq.JailIn
+			err = os.MkdirAll(jail, 0o755)
+		} else {
+			jail, err = os.MkdirTemp("", "verif-jail-")
+			defer os.RemoveAll(jail)
+		}
 		if err != nil {
 			return wproto.Rep{Class: "err", Err: "harness: " + err.Error()}
 		}
-		defer os.RemoveAll(jail)
 		os.Mkdir(filepath.Join(jail, "A"), 0o755)
 		os.Mkdir(filepath.Join(jail, "B"), 0o755)
 		octx, ocancel := context.WithCancel(context.Background())
 		defer ocancel()
-		opts = []gtree.Option{gtree.WithTargetDir(filepath.Join(jail, "A"))}
+		base := jail // how the call names its directories: absolute, or relative to the current directory
+		if rq.RelJail {
+			base = filepath.Base(jail)
+		}
+		opts = []gtree.Option{gtree.WithTargetDir(filepath.Join(base, "A"))}
 		for _, t := range rq.OptSeq {
-			opts = append(opts, optOf(t, jail, octx))
+			opts = append(opts, optOf(t, base, octx))
 		}
 	} else if rq.Target != "" {
 		target := rq.Target
@@ -677,6 +698,9 @@ func handleOne(rq wproto.Req, alone bool) (rp wproto.Rep) {
 		rp.Entries = snapshot(jail)
 		if rq.OptMode { // every call has its own jail: make the texts comparable
 			rp.Err = strings.ReplaceAll(rp.Err, jail, "$JAIL")
+			if rq.RelJail {
+				rp.Err = strings.ReplaceAll(rp.Err, filepath.Base(jail)+"/", "$JAIL/")
+			}
 			// the verifier lists paths in map order: sort the lines below each heading
 			var blocks [][]string
 			for _, l := range strings.Split(rp.Err, "\n") {
